@@ -309,7 +309,15 @@ func runSched(o checks.Opts) *report.Report {
 			b = 2
 		}
 		e := &explore.Explorer{Bound: b, Shard: o.Shard, Shards: o.Shards, ShardLvl: 2}
+		if !o.Quick() {
+			// the thorough tier is capped per scenario and shard (reported, exhaustive=false when hit)
+			e.MaxExec = 6000000
+		}
 		st := e.Explore(body(sc))
+		if st.Capped {
+			rep.CapsHit = append(rep.CapsHit, fmt.Sprintf("%s: execution cap %d reached in shard %d at bound %d (bound %d is complete in the quick tier)", sc.Name, e.MaxExec, o.Shard, b, 2))
+			rep.Exhaustive = false
+		}
 		if len(st.Divergences) > 0 {
 			rep.Fault = "replay divergence: " + st.Divergences[0]
 			return rep
